@@ -74,7 +74,8 @@ func e6Sources(c *Ctx, nfiles int) []srcFile {
 		st := render.Style(i % int(render.NStyles))
 		var body strings.Builder
 		imps := map[string]bool{}
-		for j := i * per; j < (i+1)*per && j < len(progs); j++ {
+		_ = per
+		for j := i; j < len(progs); j += nfiles { // round robin: no file stays empty
 			progs[j].ID = j
 			if len(progs[j].Files) > 0 {
 				continue // programs that need extra data files are not part of this workload
